@@ -4,7 +4,7 @@ from . import world as W
 odml = W.odml
 from odml import dtypes
 
-TEXT = {"none": None, "X": "Amplifier gain", "Xv": "amplifier   GAIN", "Y": "Something else"}
+TEXT = {"none": None, "X": "Amplifier gain (dB)", "Xv": "amplifier   GAIN(dB)", "Y": "Something else"}     # Xv: other case, more / no whitespace
 VALS = {"v12": [1, 2], "v23": [2, 3], "v45": [4, 5], "text": ["abc"], "empty": [], "float": [2.5, 3.0], "mixed": ["3", "x"]}
 
 
@@ -93,4 +93,35 @@ def replay(g):
             out, exc = "raised", type(e).__name__
         post, objs = snap(objs, idtok)
         yield {"fam": "merge", "src": "model", "g": g, "dst": "D", "src_root": "S", "strict": strict, "out": out, "exc": exc,
-               "pre": pre, "post": post, "conv": conv}
+               "pre": pre, "post": post, "conv": conv, "round": 1}
+        if out != "ok":
+            continue
+        # a second merge after the source has grown below its root (history of two merges)
+        try:
+            grow(objs)
+        except Exception:
+            continue
+        pre, objs = snap(objs, idtok)
+        conv = conv_table(objs, pre)
+        out, exc = "ok", "none"
+        try:
+            objs["D"].merge(objs["S"], strict=strict)
+        except Exception as e:
+            out, exc = "raised", type(e).__name__
+        post, objs = snap(objs, idtok)
+        yield {"fam": "merge", "src": "model", "g": g, "dst": "D", "src_root": "S", "strict": strict, "out": out, "exc": exc,
+               "pre": pre, "post": post, "conv": conv, "round": 2}
+
+
+def grow(objs):
+    """the source gains a value, a Property and a sub-Section inside its sub-Section (or at its root if it has none)"""
+    src = objs["S"]
+    where = src.sections[0] if len(src.sections) else src
+    n = len(objs)
+    for p in where.properties:
+        if p.dtype == "int":
+            p.append(900 + n)
+            break
+    objs["g1"] = odml.Property(name="grown", values=[7], parent=where)
+    objs["g2"] = odml.Section(name="grownsec", type="t", parent=where)
+    objs["g3"] = odml.Property(name="deep", values=["x"], parent=objs["g2"])
